@@ -23,10 +23,14 @@ META = {
             "slope = -gamma_qg/nf (space-like, unpolarised and polarised) resp. -gamma^T_{Sigma g}/nf (time-like, roles of the "
             "off-diagonal kernels swapped), gluon<-heavy = -gamma_gq, heavy<-heavy = -gamma_ns, gluon<-gluon = gamma_gg(nf) - "
             "gamma_gg(nf+1) = -(beta0(nf) - beta0(nf+1)); identities in N. The time-like heavy<-gluon element is the single-"
-            "quark expression and misses the factor two of h + hbar (known finding).",
+            "quark expression and misses the factor two of h + hbar (known finding). (3) CONTINUATION: (1) and (2) are decided "
+            "at integer moments / as identities of the first-order expressions; off the integers the higher-order L-coefficients "
+            "keep their RG form only if every parity-dependent harmonic sum requested inside a matching element is continued "
+            "with that element's definite parity - every such request passes a literal boolean, the caller's own flag or a "
+            "configuration-computed boolean (call-site rule shared with C26, restricted to the matching elements).",
     "note": "Level 'other': the second- and third-order logarithms are not derived; third-order sum rules hold only to the accuracy "
             "of the parametrisations.",
-    "technique": "partial evaluation at the sum-rule moments + exact special values of harmonic sums; differentiation in L + polynomial identity testing against anomalous dimensions extracted from the tree",
+    "technique": "partial evaluation at the sum-rule moments + exact special values of harmonic sums; differentiation in L + polynomial identity testing against anomalous dimensions extracted from the tree; definite-parity-flag call-site rule over the matching elements",
     "engine": "sa",
 }
 
@@ -202,5 +206,13 @@ def run(chk):
         ok, info = dag.is_zero_fp([d2], chk.seed, 2)
         chk.decide(ok, "first-order-log-follows-from-rg-invariance", q, "the first-order element is not linear in L", where=src.func(q).where,
                    instance="linear:" + q.split(".")[-3] + q.split(".")[-1])
-    chk.note(sum_rule_obligations=n_ob, files=["src/ekore/operator_matrix_elements/**", "src/ekore/anomalous_dimensions/**/as1.py"])
+    # ---- continuation off the integer moments: the alternating sums of a matching element carry the element's parity -----------
+    # The identities above are decided at integer moments, where (-1)**N equals the parity of the element.  For complex N they
+    # survive only if every parity-dependent harmonic sum requested inside the matching elements gets the element's definite
+    # parity flag (otherwise the sum is continued with e^(i pi N) and the L-coefficients built from it break RG invariance).
+    from .c26 import parity_rule
+
+    sites = parity_rule(chk, src, {}, scope=("ekore.operator_matrix_elements.",), rule="sums-continued-with-the-element-parity", floors=False)
+    chk.floor("parity-dependent requests inside matching elements", sites["True"] + sites["False"] + sites["pass-through"] + sites["computed boolean"], 25)
+    chk.note(sum_rule_obligations=n_ob, parity_sites=dict(sites), files=["src/ekore/operator_matrix_elements/**", "src/ekore/anomalous_dimensions/**/as1.py"])
     chk.explanation = "Sum rules with exact special values for all L; first-order logs from RG invariance against the tree's anomalous dimensions."
